@@ -109,10 +109,12 @@ func (t *Trace) AddSpan(sp *Span) {
 // so we can eject the ones that having the most impact on the cache size, but balancing that
 // against preferring to keep newer spans.
 func (t *Trace) CacheImpact(traceTimeout time.Duration) int {
-	if t.totalImpact == 0 {
-		for _, sp := range t.GetSpans() {
-			t.totalImpact += sp.CacheImpact(traceTimeout)
-		}
+	// The impact depends on how long each span has been held, so it is computed
+	// afresh on every call: a value remembered from an earlier ejection round
+	// would be stale (callers that sort by it compute it once per trace).
+	t.totalImpact = 0
+	for _, sp := range t.GetSpans() {
+		t.totalImpact += sp.CacheImpact(traceTimeout)
 	}
 	return t.totalImpact
 }
